@@ -119,28 +119,161 @@ def formatBigInt (i : Int) : String := encodeHexNumber (i < 0) (natBytes i.natAb
 def formatInt (v : Int) : String := encodeHexNumber (v < 0) (sizeToBytes v.natAbs)
 def formatUint (v : Nat) : String := encodeHexNumber false (sizeToBytes v)
 
-def hexDigitsVal : List Char → Option Nat
-  | cs => cs.foldl (fun acc c => match acc, Hex.val c with
-      | some a, some d => some (a * 16 + d)
-      | _, _ => none) (some 0)
+/-! ### text parsers
 
-def decDigitsVal (cs : List Char) : Option Nat :=
-  cs.foldl (fun acc c => match acc with
-      | some a => if '0' ≤ c ∧ c ≤ '9' then some (a * 10 + (c.toNat - 48)) else none
-      | none => none) (some 0)
+`ParseBigInt` hands the text to `big.Int.SetString`, `ParseInt`/`ParseUint` to `strconv`.
+Both library scanners are transcribed (sign, base prefixes, `_` separators, digit loop) so that
+the correspondence run can feed arbitrary ASCII text, not only well-formed numbers. -/
 
-/-- the part of `ParseBigInt` the check exercises: optional '-', then `0x`+hex digits, or decimal digits. -/
+/-- digit value in `big.nat.scan` (bases ≤ 36); 63 = `MaxBase+1` = "not a digit". -/
+def scanDigit (c : Char) : Nat :=
+  if '0' ≤ c ∧ c ≤ '9' then c.toNat - 48
+  else if 'a' ≤ c ∧ c ≤ 'z' then c.toNat - 97 + 10
+  else if 'A' ≤ c ∧ c ≤ 'Z' then c.toNat - 65 + 10
+  else 63
+
+/-- digit loop of `big.nat.scan`; state = (value, digit count, prev, invalSep).
+    `none` = a character that does not belong to the number was met: `SetString` then fails
+    because input is left over. -/
+def scanLoop (b : Nat) (sepOk : Bool) : List Char → Nat → Nat → Char → Bool → Option (Nat × Nat × Char × Bool)
+  | [], v, cnt, prev, inv => some (v, cnt, prev, inv)
+  | c :: r, v, cnt, prev, inv =>
+    if c = '_' ∧ sepOk then scanLoop b sepOk r v cnt '_' (inv || prev != '0')
+    else
+      let d := scanDigit c
+      if d ≥ b then none
+      else scanLoop b sepOk r (v * b + d) (cnt + 1) '0' inv
+
+def scanFinish : Option (Nat × Nat × Char × Bool) → Option Nat
+  | some (v, cnt, prev, inv) => if inv ∨ prev = '_' then none else if cnt = 0 then none else some v
+  | none => none
+
+/-- `big.nat.scan` + "entire content must be consumed"; `base0` = called with base 0, else base 10. -/
+def bigScanNat (base0 : Bool) (cs : List Char) : Option Nat :=
+  if base0 then
+    match cs with
+    | '0' :: c :: r =>
+      if c = 'b' ∨ c = 'B' then scanFinish (scanLoop 2 true r 0 0 '0' false)
+      else if c = 'o' ∨ c = 'O' then scanFinish (scanLoop 8 true r 0 0 '0' false)
+      else if c = 'x' ∨ c = 'X' then scanFinish (scanLoop 16 true r 0 0 '0' false)
+      else scanFinish (scanLoop 8 true (c :: r) 0 0 '0' false)
+    | _ => scanFinish (scanLoop 10 true cs 0 0 '.' false)
+  else scanFinish (scanLoop 10 false cs 0 0 '.' false)
+
+/-- `big.Int.SetString(s, base)` for base 0 / 10 -/
+def bigSetString (base0 : Bool) (cs : List Char) : Option Int :=
+  match cs with
+  | [] => none
+  | '-' :: r => (bigScanNat base0 r).map (fun m => -(m : Int))
+  | '+' :: r => (bigScanNat base0 r).map (fun m => (m : Int))
+  | r => (bigScanNat base0 r).map (fun m => (m : Int))
+
+def isDecDigit (c : Char) : Bool := '0' ≤ c ∧ c ≤ '9'
+
+/-- `regexp("_([0-9]+)").ReplaceAllString(s, "$1")`: drops every `_` that is directly followed by a digit. -/
+def nextIsDigit : List Char → Bool
+  | d :: _ => isDecDigit d
+  | [] => false
+
+def underDigitReplace : List Char → List Char
+  | [] => []
+  | c :: rest =>
+    if c = '_' ∧ nextIsDigit rest then underDigitReplace rest
+    else c :: underDigitReplace rest
+
+/-- `ParseBigInt` -/
 def parseBigInt (s : String) : Option Int :=
   let cs := s.toList
-  let (neg, body) := match cs with
-    | '-' :: r => (true, r)
-    | r => (false, r)
-  let mag : Option Nat := match body with
-    | '0' :: 'x' :: ds => if ds.isEmpty then none else hexDigitsVal ds
-    | [] => none
-    | ds => decDigitsVal ds
-  match mag with
-  | some m => some (if neg then -(m : Int) else m)
-  | none => none
+  let s2 := match cs with
+    | '-' :: r => r
+    | r => r
+  match s2 with
+  | '0' :: c :: _ =>
+    if c = 'o' ∨ c = 'O' ∨ c = 'X' ∨ c = 'b' ∨ c = 'B' then none
+    else if c = 'x' then bigSetString true cs
+    else bigSetString false (underDigitReplace cs)
+  | _ => bigSetString true cs
+
+/-- digit value in `strconv.ParseUint` (`lower(c) = c | 0x20`) -/
+def puDigit (c : Char) : Option Nat :=
+  if '0' ≤ c ∧ c ≤ '9' then some (c.toNat - 48)
+  else if c.toNat < 128 ∧ 97 ≤ (c.toNat ||| 32) ∧ (c.toNat ||| 32) ≤ 122 then some ((c.toNat ||| 32) - 97 + 10)
+  else none
+
+/-- digit loop of `strconv.ParseUint` with the uint64 wrap-around made explicit. -/
+def puLoop (base : Nat) (base0 : Bool) (cutoff maxVal : Nat) : List Char → Nat → Bool → Option (Nat × Bool)
+  | [], n, us => some (n, us)
+  | c :: r, n, us =>
+    if c = '_' ∧ base0 then puLoop base base0 cutoff maxVal r n true
+    else match puDigit c with
+      | none => none
+      | some d =>
+        if d ≥ base then none
+        else if n ≥ cutoff then none
+        else
+          let n' := (n * base) % 2 ^ 64
+          let n1 := (n' + d) % 2 ^ 64
+          if n1 < n' ∨ n1 > maxVal then none else puLoop base base0 cutoff maxVal r n1 us
+
+/-- `strconv.underscoreOK`; `saw` ∈ {'^','0','_','!'} -/
+def underscoreLoop (hex : Bool) : List Char → Char → Bool
+  | [], saw => saw != '_'
+  | c :: r, saw =>
+    if ('0' ≤ c ∧ c ≤ '9') ∨ (hex ∧ c.toNat < 128 ∧ 97 ≤ (c.toNat ||| 32) ∧ (c.toNat ||| 32) ≤ 102) then
+      underscoreLoop hex r '0'
+    else if c = '_' then
+      if saw != '0' then false else underscoreLoop hex r '_'
+    else if saw = '_' then false
+    else underscoreLoop hex r '!'
+
+def underscoreOK (cs : List Char) : Bool :=
+  let s := match cs with
+    | '-' :: r => r
+    | '+' :: r => r
+    | r => r
+  match s with
+  | '0' :: c :: r =>
+    if c = 'b' ∨ c = 'B' ∨ c = 'o' ∨ c = 'O' then underscoreLoop false r '0'
+    else if c = 'x' ∨ c = 'X' then underscoreLoop true r '0'
+    else underscoreLoop false s '^'
+  | _ => underscoreLoop false s '^'
+
+/-- `strconv.ParseUint(s, 0, bits)` on the characters of `s` (1 ≤ bits ≤ 64). -/
+def parseUintChars (cs : List Char) (bits : Nat) : Option Nat :=
+  match cs with
+  | [] => none
+  | c0 :: _ =>
+    let (base, body) : Nat × List Char :=
+      if c0 = '0' then
+        match cs with
+        | _ :: c1 :: c2 :: r =>
+          if c1 = 'b' ∨ c1 = 'B' then (2, c2 :: r)
+          else if c1 = 'o' ∨ c1 = 'O' then (8, c2 :: r)
+          else if c1 = 'x' ∨ c1 = 'X' then (16, c2 :: r)
+          else (8, c1 :: c2 :: r)
+        | _ :: r => (8, r)
+        | [] => (8, [])
+      else (10, cs)
+    let cutoff := (2 ^ 64 - 1) / base + 1
+    let maxVal := 2 ^ bits - 1
+    match puLoop base true cutoff maxVal body 0 false with
+    | none => none
+    | some (n, us) => if us ∧ ¬ underscoreOK cs then none else some n
+
+def parseUint (s : String) (bits : Nat) : Option Nat := parseUintChars s.toList bits
+
+/-- `strconv.ParseInt(s, 0, bits)`: a range error of `ParseUint` is a range error here too. -/
+def parseInt (s : String) (bits : Nat) : Option Int :=
+  match s.toList with
+  | [] => none
+  | c :: r =>
+    let (neg, body) := if c = '+' then (false, r) else if c = '-' then (true, r) else (false, c :: r)
+    match parseUintChars body bits with
+    | none => none
+    | some un =>
+      let cutoff := 2 ^ (bits - 1)
+      if ¬ neg ∧ un ≥ cutoff then none
+      else if neg ∧ un > cutoff then none
+      else some (if neg then -(un : Int) else (un : Int))
 
 end Goloop.C24
